@@ -664,8 +664,15 @@ func registerVndIntrinsics(reg func(string, externalFn)) {
 				if _, ok := r.(wouldBlockPanic); !ok {
 					panic(r)
 				}
+				known := map[*vmutex]bool{}
 				for _, s := range snaps {
 					s.mu.locked, s.mu.owner, s.mu.ownerA = s.locked, s.owner, s.ownerA
+					known[s.mu] = true
+				}
+				for _, mu := range m.sc.mutexes {
+					if !known[mu] { // first locked inside f: did not exist before
+						mu.locked, mu.owner, mu.ownerA = false, nil, 0
+					}
 				}
 				m.sc.cur.held = m.sc.cur.held[:heldLen]
 				res = true
